@@ -100,6 +100,10 @@ pub enum LcMut {
     /// position j shows a consistent opening (committed column + its authentication path) of leaf q_j + 1
     /// instead of leaf q_j; v and the well-formedness vector symbolic
     LeafRotate,
+    /// the last opened column and its path removed, v symbolic (fewer than t columns)
+    ColsDropLast,
+    /// no columns and no paths at all, v symbolic
+    ColsNone,
 }
 
 pub trait LinStateParts {
@@ -193,6 +197,23 @@ where
                         Err(_) => return Verdict::Discard("harness Merkle path failed".into()),
                     };
                     cols[j] = ext_rows.iter().map(|row| row[k]).collect();
+                }
+                for x in pv.iter_mut() {
+                    *x = sym("fv");
+                }
+                if let Some(x) = wf.as_mut() {
+                    for y in x.iter_mut() {
+                        *y = sym("fw");
+                    }
+                }
+            }
+            LcMut::ColsDropLast | LcMut::ColsNone => {
+                if m == LcMut::ColsNone {
+                    cols.clear();
+                    paths.clear();
+                } else {
+                    cols.pop();
+                    paths.pop();
                 }
                 for x in pv.iter_mut() {
                     *x = sym("fv");
